@@ -1455,6 +1455,9 @@ func (e *detEngine) analyseLoop(l *orderLoop) (taintLocal []ssa.Value, taintFiel
 							if l.perElementTarget(tgt, 0) || (freshObject(tgt) && definedInBody(l, tgt)) {
 								continue // collects into an object that belongs to the current element
 							}
+							if e.localObjectSorted(l.f, tgt, x) {
+								continue // collects into a local object that is sorted (total order) before it is used
+							}
 							if kj := e.appendKey[cal][fv]; l.kind == "map" && kj >= 0 && kj < len(x.Call.Args) && l.isOwnKey(x.Call.Args[kj]) {
 								continue // the callee selects the list by this loop's own (unique) key: one append per list
 							}
@@ -1679,7 +1682,7 @@ func (e *detEngine) run() {
 				}
 				// load of a tainted field
 				if ld, ok := v.(*ssa.UnOp); ok && ld.Op == token.MUL {
-					if fv := fieldOfAddr(ld.X); fv != nil && len(ownerSorted[fv]) == 0 {
+					if fv := fieldOfAddr(ld.X); fv != nil && !e.sortedBefore(f, fv, ld) {
 						for _, sl := range slotsOfAddr(ld.X) {
 							if why, ok := e.taintedField[sl]; ok {
 								return slotShort(sl) + " " + why, true
@@ -1728,7 +1731,7 @@ func (e *detEngine) run() {
 				}
 				if why == "" {
 					if ld, ok := x.(*ssa.UnOp); ok && ld.Op == token.MUL {
-						if fv := fieldOfAddr(ld.X); fv != nil && len(ownerSorted[fv]) == 0 {
+						if fv := fieldOfAddr(ld.X); fv != nil && !e.sortedBefore(f, fv, ld) {
 							for _, sl := range slotsOfAddr(ld.X) {
 								if w, ok := e.taintedField[sl]; ok {
 									why = slotShort(sl) + " " + w
@@ -1753,6 +1756,64 @@ func (e *detEngine) run() {
 			}
 		}
 	}
+}
+
+// sortedBefore: in f, on every path to ins a sort call that permutes field fv (through a sort.Interface whose
+// Swap touches fv, or sort.Slice/Strings on a load of fv) has executed. Methods of the sort.Interface
+// implementation itself (Len / Less / Swap) are exempt.
+func (e *detEngine) sortedBefore(f *ssa.Function, fv *types.Var, ins ssa.Instruction) bool {
+	switch f.Name() {
+	case "Len", "Less", "Swap":
+		return true
+	}
+	isSort := func(i ssa.Instruction) bool {
+		for _, sc := range e.sorts[f] {
+			if sc.ins != i {
+				continue
+			}
+			for _, x := range sc.fields {
+				if x == fv {
+					return true
+				}
+			}
+			if sc.direct != nil {
+				if ld, ok := sc.direct.(*ssa.UnOp); ok && fieldOfAddr(ld.X) == fv {
+					return true
+				}
+			}
+		}
+		return false
+	}
+	has := false
+	for _, sc := range e.sorts[f] {
+		if isSort(sc.ins) {
+			has = true
+		}
+	}
+	if !has {
+		return false
+	}
+	return len(mustPrecede(f, isSort, func(i ssa.Instruction) bool { return i == ins })) == 0
+}
+
+// localObjectSorted: tgt is (the address of) a local struct of f and, after `at`, every path to a return of f
+// passes a sort.Sort / sort.Stable call on that very object (whose comparator is not single-key)
+func (e *detEngine) localObjectSorted(f *ssa.Function, tgt ssa.Value, at ssa.Instruction) bool {
+	al, ok := tgt.(*ssa.Alloc)
+	if !ok {
+		return false
+	}
+	e.grp(f)
+	isSort := func(i ssa.Instruction) bool {
+		for _, sc := range e.sorts[f] {
+			if sc.ins == i && sc.wrap == ssa.Value(al) {
+				return true
+			}
+		}
+		return false
+	}
+	isAt := func(i ssa.Instruction) bool { return i == at }
+	return len(mustFollow(f, isAt, isSort)) == 0
 }
 
 // lenOneGuard: block b is dominated by the true edge of `len(X) == 1` for X in the same slice group as x
